@@ -236,6 +236,13 @@ fn read_schedule(rng: &mut Rng, total: usize) -> Vec<RDir> {
         let p = rng.usize(v.len() + 1);
         v.insert(p, if rng.bool() { RDir::Pending } else { RDir::PendingWake });
     }
+    // now and then a long run of 'not ready' in one place
+    if rng.chance(1, 25) {
+        let p = rng.usize(v.len() + 1);
+        for _ in 0..*rng.pick(&[16usize, 17, 40]) {
+            v.insert(p, RDir::Pending);
+        }
+    }
     v
 }
 
@@ -256,7 +263,7 @@ fn write_schedule(rng: &mut Rng) -> (Vec<WDir>, Vec<FDir>) {
             _ => WDir::Acc(1 + rng.usize(9000)),
         });
     }
-    let m = rng.usize(4);
+    let m = if rng.chance(1, 25) { *rng.pick(&[16usize, 17, 40]) } else { rng.usize(4) };
     for _ in 0..m {
         f.push(match rng.below(3) {
             0 => FDir::Pending,
@@ -571,6 +578,12 @@ fn run_c04(ctx: &mut Ctx, rng: &mut Rng, resp: &[Vec<u8>], thorough: bool, shard
             left -= c;
             if rng.chance(1, 10) {
                 sc.push(RDir::Pending);
+            }
+            if rng.chance(1, 60) {
+                // a long run of 'not ready'
+                for _ in 0..*rng.pick(&[16usize, 17, 33, 70]) {
+                    sc.push(RDir::Pending);
+                }
             }
         }
         run_frames_case(ctx, &s, sc, rng.bool(), "long-run-aligned");
